@@ -156,7 +156,29 @@ def stream_element(seed, tier):
     return out
 
 
+def stream_faults(seed, tier):
+    """C17: the k-th allocation of an operation throws (k = 0, 1), then the operands are dumped, used and torn down"""
+    rng = random.Random(seed * 67867967 + 17)
+    cfgs = []
+    base = list(gen.CORPUS)
+    for i in range(24 if tier == "quick" else 140):
+        alloc = ALLOCS[i % len(ALLOCS)]
+        if i < len(base):
+            c = gen.Cfg(base[i].name + "-" + alloc, base[i].params, alloc)
+        else:
+            c = gen.random_cfg(rng, "F%d" % i, category=["plain", "fixed", "varying", "mixed"][i % 4], tracked=(i % 2 == 0), alloc=alloc)
+        cfgs.append(c)
+    out = []
+    for c in cfgs:
+        for s in range(3 if tier == "quick" else 6):
+            out.append((c, gen.gen_history(rng, c, 40 if tier == "quick" else 100, multi=True, allocs=(1, 2), equal_sizes=c.tracked(), faults=True,
+                                           weights={"erase": 1, "eraser": 1, "pop": 1, "new": 2, "copy": 3, "copyassign": 3, "moveassign": 3,
+                                                    "reserve": 3, "swap": 0})))
+    return out
+
+
 STREAMS = {
+    "C17": stream_faults,
     "C11": stream_refiter, "C12": stream_element,
     "C13": stream_compare, "C14": stream_compare,
     "C01": stream_history, "C02": stream_layout, "C03": stream_layout, "C04": stream_layout, "C05": stream_layout,
